@@ -162,7 +162,7 @@ pub fn build_repo(tag: &str, dags: &[Dag]) -> Repo {
         }
     }
     let marks = dir.join("marks");
-    vkit::git::git_in(&dir, &["fast-import", "--quiet", "--force", "--done", &format!("--export-marks={}", marks.display())], format!("{stream}done\n").as_bytes());
+    vkit::git::git_in(&dir, &["-c", "fastimport.unpackLimit=0", "fast-import", "--quiet", "--force", "--done", &format!("--export-marks={}", marks.display())], format!("{stream}done\n").as_bytes());
     let text = std::fs::read_to_string(&marks).unwrap_or_else(|e| vkit::machinery!("marks: {e}"));
     let mut by_mark: HashMap<usize, ObjectId> = HashMap::new();
     for l in text.lines() {
@@ -188,6 +188,35 @@ pub fn write_commit_graph(repo: &Repo) {
     all.dedup();
     let input = all.join("\n") + "\n";
     vkit::git::git_in(&repo.git_dir, &["commit-graph", "write", "--stdin-commits"], input.as_bytes());
+}
+
+/// Write commit-graph files that cover only a part of every DAG: file `info/cg-<k>/commit-graph` holds exactly the commits with creation
+/// index < k of every DAG (k = 1..=nmax). As commit i carries the message "c<i>", an object has the same index in every DAG it occurs in,
+/// and a prefix in creation order is closed under ancestry, so for each DAG the file covers exactly its first k commits (all of them if k >= n).
+/// Call before `write_commit_graph` (each file is written to the standard location and then moved away).
+pub fn write_prefix_graphs(repo: &Repo, nmax: usize) {
+    let info = repo.objects().join("info");
+    for k in 1..=nmax {
+        let mut some: Vec<String> = repo.ids.values().flat_map(|v| v.iter().take(k)).map(|i| i.to_string()).collect();
+        some.sort();
+        some.dedup();
+        let _ = std::fs::remove_file(info.join("commit-graph"));
+        vkit::git::git_in(&repo.git_dir, &["commit-graph", "write", "--stdin-commits"], (some.join("\n") + "\n").as_bytes());
+        let dir = info.join(format!("cg-{k}"));
+        std::fs::create_dir_all(&dir).unwrap_or_else(|e| vkit::machinery!("mkdir: {e}"));
+        std::fs::rename(info.join("commit-graph"), dir.join("commit-graph")).unwrap_or_else(|e| vkit::machinery!("move commit-graph: {e}"));
+        // the file must hold exactly the requested commits (git adds ancestors, of which there are none outside the prefix)
+        let g = gix_commitgraph::Graph::from_info_dir(&dir).unwrap_or_else(|e| vkit::machinery!("partial commit-graph unreadable: {e}"));
+        if g.num_commits() as usize != some.len() {
+            vkit::machinery!("partial commit-graph {k} holds {} commits, expected {}", g.num_commits(), some.len());
+        }
+    }
+}
+
+/// the commit-graph covering the first `k` commits of every DAG
+pub fn load_prefix_graph(objects: &Path, k: usize) -> gix_commitgraph::Graph {
+    gix_commitgraph::Graph::from_info_dir(&objects.join("info").join(format!("cg-{k}")))
+        .unwrap_or_else(|e| vkit::machinery!("partial commit-graph {k} unreadable: {e}"))
 }
 
 pub fn load_commit_graph(objects: &Path) -> gix_commitgraph::Graph {
